@@ -5,10 +5,13 @@
 EXTENDS Naturals, Sequences, Bitwise, SequencesExt, Functions, Folds
 
 Byte == 0..255
-Upto(n) == [k \in 1..n |-> k]                 \* <<1,..,n>> for FoldLeft iteration
-Zeros(n) == [k \in 1..n |-> 0]
-Rep(b, n) == [k \in 1..n |-> b]
-XorSeq(a, b) == [k \in 1..Len(a) |-> a[k] ^^ b[k]]       \* Len(b) >= Len(a)
+\* TLC keeps [k \in 1..n |-> e] as an unevaluated lambda and re-evaluates e on every application;
+\* concatenation with the empty sequence turns it into an evaluated tuple (same value)
+Strict(f) == f \o <<>>
+Upto(n) == Strict([k \in 1..n |-> k])                 \* <<1,..,n>> for FoldLeft iteration
+Zeros(n) == Strict([k \in 1..n |-> 0])
+Rep(b, n) == Strict([k \in 1..n |-> b])
+XorSeq(a, b) == Strict([k \in 1..Len(a) |-> a[k] ^^ b[k]])       \* Len(b) >= Len(a)
 Take(s, n) == SubSeq(s, 1, n)
 Drop(s, n) == SubSeq(s, n + 1, Len(s))
 Min2(a, b) == IF a < b THEN a ELSE b
@@ -18,15 +21,15 @@ BlockAt(s, blk, k) == SubSeq(s, blk * (k - 1) + 1, Min2(blk * k, Len(s)))
 PadZeroTo(s, blk) == IF Len(s) % blk = 0 THEN s ELSE s \o Zeros(blk - (Len(s) % blk))
 
 \* big-endian / little-endian encodings of a natural n < 2^31 in w bytes
-BE(n, w) == [k \in 1..w |-> IF w - k >= 4 THEN 0 ELSE (n \div (2 ^ (8 * (w - k)))) % 256]
-LE(n, w) == [k \in 1..w |-> IF k - 1 >= 4 THEN 0 ELSE (n \div (2 ^ (8 * (k - 1)))) % 256]
+BE(n, w) == Strict([k \in 1..w |-> IF w - k >= 4 THEN 0 ELSE (n \div (2 ^ (8 * (w - k)))) % 256])
+LE(n, w) == Strict([k \in 1..w |-> IF k - 1 >= 4 THEN 0 ELSE (n \div (2 ^ (8 * (k - 1)))) % 256])
 
 \* increment of a big-endian byte string modulo 2^(8*Len(s)) (carry through all bytes)
 IncBE(s) ==
   LET n == Len(s)
       \* carry into position k (from the right): all bytes to the right are 255
       AllFF(k) == \A j \in (k + 1)..n : s[j] = 255
-  IN [k \in 1..n |-> IF AllFF(k) THEN (s[k] + 1) % 256 ELSE s[k]]
+  IN Strict([k \in 1..n |-> IF AllFF(k) THEN (s[k] + 1) % 256 ELSE s[k]])
 \* add a small natural d to a big-endian byte string modulo 2^(8*Len(s))
 AddBE(s, d) ==
   LET n == Len(s)
@@ -54,11 +57,11 @@ LB == 8192
 BitOfLE(s, t) == IF t \div 8 < Len(s) THEN (s[(t \div 8) + 1] \div (2 ^ (t % 8))) % 2 ELSE 0
 \* number with little-endian byte string s, as nl limbs
 LimbsOfLE(s, nl) ==
-  [k \in 1..nl |-> FoldLeft(LAMBDA acc, j : acc + BitOfLE(s, 13 * (k - 1) + j - 1) * (2 ^ (j - 1)), 0, Upto(13))]
+  Strict([k \in 1..nl |-> FoldLeft(LAMBDA acc, j : acc + BitOfLE(s, 13 * (k - 1) + j - 1) * (2 ^ (j - 1)), 0, Upto(13))])
 BitOfLimbs(x, t) == IF t \div 13 < Len(x) THEN (x[(t \div 13) + 1] \div (2 ^ (t % 13))) % 2 ELSE 0
 \* the low nb bytes (little-endian) of the number x
 LEOfLimbs(x, nb) ==
-  [k \in 1..nb |-> FoldLeft(LAMBDA acc, j : acc + BitOfLimbs(x, 8 * (k - 1) + j - 1) * (2 ^ (j - 1)), 0, Upto(8))]
+  Strict([k \in 1..nb |-> FoldLeft(LAMBDA acc, j : acc + BitOfLimbs(x, 8 * (k - 1) + j - 1) * (2 ^ (j - 1)), 0, Upto(8))])
 \* carry propagation: columns (each < 2^31 - 2^18) -> proper limbs, one limb longer
 Normalize(cols) ==
   LET Step(acc, k) == LET v == cols[k] + acc[1] IN <<v \div LB, Append(acc[2], v % LB)>>
@@ -67,13 +70,13 @@ Normalize(cols) ==
 LimbAt(x, k) == IF k <= Len(x) THEN x[k] ELSE 0
 BigAdd(x, y) ==
   LET n == IF Len(x) > Len(y) THEN Len(x) ELSE Len(y)
-  IN Normalize([k \in 1..n |-> LimbAt(x, k) + LimbAt(y, k)])
+  IN Normalize(Strict([k \in 1..n |-> LimbAt(x, k) + LimbAt(y, k)]))
 \* schoolbook product; needs Min(Len) * 2^26 < 2^31, i.e. at most 31 limbs in the shorter factor
 BigMul(x, y) ==
   LET nx == Len(x)  ny == Len(y)
       Col(k) == FoldLeft(LAMBDA acc, i : IF k - i + 1 >= 1 /\ k - i + 1 <= ny THEN acc + x[i] * y[k - i + 1] ELSE acc,
                          0, Upto(nx))
-  IN Normalize([k \in 1..(nx + ny - 1) |-> Col(k)])
+  IN Normalize(Strict([k \in 1..(nx + ny - 1) |-> Col(k)]))
 \* comparison of equally long limb sequences
 BigGeq(x, y) ==
   LET n == Len(x)
